@@ -211,8 +211,16 @@ def export_plan(dag):
     for n, d in nodes.items():
         if d.get("type") == "array":
             t = d.get("target")
+            dt = getattr(t, "dtype", None)
+            try:
+                import numpy as _np
+                nfields = len(_np.dtype(dt).names or ()) if dt is not None else 0
+            except Exception:
+                nfields = 0
+            ch = getattr(t, "chunks", None)
             arrays[n] = dict(name=n, path=target_path(t), prod=None, shape=list(getattr(t, "shape", ()) or ()),
-                             dtype=str(getattr(t, "dtype", "")), kind=type(t).__name__)
+                             dtype=str(dt if dt is not None else ""), kind=type(t).__name__, nfields=nfields,
+                             chunks=list(ch) if isinstance(ch, (tuple, list)) and all(isinstance(c, int) for c in ch) else None)
     for n, d in nodes.items():
         po = d.get("primitive_op")
         if po is None:
